@@ -577,7 +577,7 @@ func configure(g *gen) {
 		{Callee: "$.Req.Method", Value: "(meth $.req)", T: tStr},
 		{Callee: "$.Header", Stmts: []string{"let %t ← Gen.Ctx.Header $ %1 hdr hget meth"}, Value: "%t", T: tStr, MayPanic: true},
 	}
-	for _, n := range []string{"Header", "IsAjax", "IsGet", "IsPost", "IsMethod", "IsWebSocket", "ContentType"} {
+	for _, n := range []string{"Header", "IsAjax", "IsGet", "IsPost", "IsMethod", "IsWebSocket", "ContentType", "AcceptedTypes"} {
 		add(FnSpec{Recv: "Context", Func: n, Lean: "Ctx." + n, Extra: rqExtra, Types: map[string]T{"[]string": tStrList}, Exts: rqExts})
 	}
 	// the body-form readers: ParseForm / ParseMultipartForm are net/http's (their errors are dropped by rux);
